@@ -85,6 +85,7 @@ func (publisherSelf *PublisherDef[T]) Publish(result T) {
 	})
 
 	for _, s := range subscribers {
+		s := s
 		if s.OnNext != nil {
 
 			doSub := func() {
